@@ -40,6 +40,7 @@ class C04(HistoryProp):
     cases = {'quick': 1200, 'thorough': 25000}
     genome = {'quick': 500, 'thorough': 600}
     ref_steps = 1500
+    skip_undecided = True
 
     def decode(self, src):
         ne = 2 + src.n(2)
@@ -132,6 +133,10 @@ class C04(HistoryProp):
             sub = [(i, op) for i, op in enumerate(ops) if self.engine_of(op, qmap) == e]
             w = H.ImplWorld()
             for i, op in sub:
+                if iobs[i] == 'skipped':
+                    if op[0] == 'step':
+                        w.op_close(op[1])
+                    continue
                 keys = sorted(set(ref.keys.get(e, ())) | set(H.DB_KEYS)) if op[0] == 'db' else ()
                 try:
                     o = H.jn(w.do(op, keys))
